@@ -76,6 +76,7 @@ def run(ctx):
     ctx.not_decided("centre/offset/path/grid points hash back to their cell; hash_with_dxdy offsets in [0,1]; recovery within 1e-13 rad; depth0_bits rare branches (float numerics)")
     from rules import c03_border_offsets
     c03_border_offsets.run(ctx, ctx.crate("rel"))
+    c03_border_offsets.tiebreaks(ctx, ctx.crate("rel"))
     from rules import scale
     scale.run(ctx, ctx.crate("rel"), list(range(30)))
     from rules import cancellation
